@@ -271,4 +271,13 @@ theorem ustarWriteHeader_status_indep (st st' : WState) (e : Entry) :
     · rw [if_pos hf, if_pos hf]
     · rw [if_neg hf, if_neg hf]
 
+theorem dirSlash_idem (ft : FType) (p : List Nat) : dirSlash ft (dirSlash ft p) = dirSlash ft p := by
+  unfold dirSlash
+  by_cases h : ft = .dir ∧ p ≠ [] ∧ p.getLast? ≠ some slash
+  · rw [if_pos h]
+    have : ¬(ft = .dir ∧ p ++ [slash] ≠ [] ∧ (p ++ [slash]).getLast? ≠ some slash) := by
+      intro h'; exact h'.2.2 (by simp)
+    rw [if_neg this]
+  · rw [if_neg h, if_neg h]
+
 end LA.Codec
